@@ -4,8 +4,8 @@ namespace Cocls.Pool
 
 set_option maxHeartbeats 4000000
 
-theorem inv_submit {c : Cfg} {s : State} {t k : Nat} {kd : Kind} {bd : List Prim} {kl : Bool} {rest : List Act}
-    (h : Inv c s) (hpc : s.pc t = Pc.idle) : Inv c (stepSubmit s t k kd bd kl rest).1 := by
+theorem inv_submit {c : Cfg} {s : State} {t : Nat} {kd : Kind} {bd : List Prim} {kl : Bool} {rest : List Act}
+    (h : Inv c s) (hpc : s.pc t = Pc.idle) : Inv c (stepSubmit s t kd bd kl rest).1 := by
   have hfr : s.loc s.nextJob = Loc.fresh := (h.l_fresh _).2 (Nat.le_refl _)
   have hz := h.z_fresh s.nextJob (Nat.le_refl _)
   have hc0 := h.c_once s.nextJob
@@ -15,19 +15,38 @@ theorem inv_submit {c : Cfg} {s : State} {t k : Nat} {kd : Kind} {bd : List Prim
     have := h.l_dqpc t; grind [Pc.inStop]
   have htm : s.tmp t = [] := by
     have := h.s_tmp_pc t; grind
-  have hnw : 0 < c.nw := h.wf_nw
   unfold stepSubmit
+  inv_step h
+
+theorem inv_enqCS {c : Cfg} {s : State} {t k j : Nat} (h : Inv c s) (hpc : s.pc t = Pc.enqCS j)
+    (hmx : s.mx = none) : Inv c (stepEnqCS s t k j).1 := by
+  have hjn : j < s.nextJob := h.t_enq2 t j hpc
+  have hl : s.loc j = Loc.rejected t := (h.l_rej t j).1 (Or.inr hpc)
+  have hown := h.f_own2 t j hpc
+  have hnq : j ∉ s.q := by
+    have := h.l_q j; grind
+  have hdq : s.dq t = [] := by
+    have := h.l_dqpc t; grind [Pc.inStop]
+  have htm : s.tmp t = [] := by
+    have := h.s_tmp_pc t; grind
+  have hnw : 0 < c.nw := h.wf_nw
+  have hno : ∀ u, s.pc u ≠ Pc.wLoop ∧ s.pc u ≠ Pc.wCvEnter := by
+    intro u; have := (h.m_own u).2; grind
+  have huniq : ∀ j', s.pc t = Pc.enqCS j' → j' = j := by
+    intro j' e; rw [hpc] at e; injection e with e1; exact e1.symm
+  unfold stepEnqCS
   split
-  · inv_step h
+  · unfold setPc
+    inv_step h
   · rename_i hx
     simp only [Bool.not_eq_true] at hx
-    rcases notifyOne_cases { (newJob s t kd bd kl rest true) with loc := upd s.loc s.nextJob Loc.queued, q := s.q ++ [s.nextJob] } k with ⟨hw, he⟩ | ⟨w, hw, he⟩
+    rcases notifyOne_cases { s with pc := upd s.pc t (Pc.afterEnq j true), loc := upd s.loc j Loc.queued, q := s.q ++ [j] } k with ⟨hw, he⟩ | ⟨w, hw, he⟩
     · rw [he]
-      dsimp only [newJob] at hw
+      dsimp only at hw
       have hex : ∃ w, w < c.nw ∧ w ∉ s.waitq := ⟨0, hnw, by simp [hw]⟩
       inv_step h
     · rw [he]
-      dsimp only [newJob] at hw
+      dsimp only at hw
       have hwnd := h.s_wqnd
       have hwe : ∀ x, x ∈ s.waitq.erase w ↔ x ≠ w ∧ x ∈ s.waitq := fun x => hwnd.mem_erase_iff
       have hwnd2 : (s.waitq.erase w).Nodup := hwnd.erase w
@@ -35,14 +54,25 @@ theorem inv_submit {c : Cfg} {s : State} {t k : Nat} {kd : Kind} {bd : List Prim
       have hww : w < c.nw := h.t_worker w (by rcases hwpc.1 with h1 | h1 <;> rw [h1] <;> rfl)
       have hex : ∃ w, w < c.nw ∧ w ∉ s.waitq.erase w := ⟨w, hww, by simp [hwe]⟩
       have hbase : s.q.length ≤ s.awake.length := h.a_len hx (by intro e; rw [e] at hw; cases hw)
-      have hql : (s.q ++ [s.nextJob]).length = s.q.length + 1 := by simp
+      have hql : (s.q ++ [j]).length = s.q.length + 1 := by simp
       have hal : (w :: s.awake).length = s.awake.length + 1 := by simp
       have hwa : w ∉ s.awake := by
         intro hm; have := (h.a_mem hx w).1 hm; grind
       inv_step h
 
-theorem inv_stopCS {c : Cfg} {s : State} {t : Nat} {rest : List Act} {isD : Bool}
-    (h : Inv c s) (hpc : s.pc t = Pc.idle) : Inv c (stepStopCS s t rest isD).1 := by
+theorem inv_stopBegin {c : Cfg} {s : State} {t : Nat} {rest : List Act} {isD : Bool}
+    (h : Inv c s) (hpc : s.pc t = Pc.idle) : Inv c (stepStopBegin s t rest isD).1 := by
+  have hdq : s.dq t = [] := by
+    have := h.l_dqpc t; grind [Pc.inStop]
+  have htm : s.tmp t = [] := by
+    have := h.s_tmp_pc t; grind
+  unfold stepStopBegin
+  inv_step h
+
+theorem inv_stopCS {c : Cfg} {s : State} {t : Nat} {isD : Bool}
+    (h : Inv c s) (hpc : s.pc t = Pc.stopCS isD) (hmx : s.mx = none) : Inv c (stepStopCS s t isD).1 := by
+  have hno : ∀ u, s.pc u ≠ Pc.wLoop ∧ s.pc u ≠ Pc.wCvEnter := by
+    intro u; have := (h.m_own u).2; grind
   have hdq : s.dq t = [] := by
     have := h.l_dqpc t; grind [Pc.inStop]
   have htm : s.tmp t = [] := by
